@@ -29,7 +29,7 @@ def parseOutcome (o : String) : Option Outcome :=
 
 def parseStep (tok : String) : Option (Nat × Outcome) :=
   match tok.splitOn "/" with
-  | [w, o] => do pure (← canonNat? w 0 7, ← parseOutcome o)
+  | [w, o] => do pure (← canonNat? w 0 11, ← parseOutcome o)
   | _ => none
 
 def parseHistory (s : String) : Option (List (Nat × Outcome)) :=
